@@ -514,6 +514,9 @@ func (d *Data) sendBlocksVolume(ctx *datastore.VersionedCtx, w http.ResponseWrit
 	defer timedLog.Infof("SendBlocks %s, span x %d, span y %d, span z %d", blocksoff, blocksdims.Value(0), blocksdims.Value(1), blocksdims.Value(2))
 
 	numBlocks := int(blocksdims.Prod())
+	if numBlocks < 0 {
+		return fmt.Errorf("illegal subvolume requested: %s", subvol)
+	}
 	wg := new(sync.WaitGroup)
 
 	// launch goroutine that will stream blocks to client
